@@ -1005,6 +1005,13 @@ unsafe fn spawn(
             4 => lim(libc::RLIMIT_NOFILE, 260),
             5 => lim(libc::RLIMIT_FSIZE, 64 << 20),
             6 => lim(libc::RLIMIT_DATA, 128 << 20),
+            7 => {
+                // one usable CPU: what available_parallelism / sched_getaffinity / nproc report
+                let cpu = libc::sched_getcpu().max(0) as usize;
+                let mut set: libc::cpu_set_t = std::mem::zeroed();
+                libc::CPU_SET(cpu, &mut set);
+                libc::sched_setaffinity(0, std::mem::size_of::<libc::cpu_set_t>(), &set);
+            }
             _ => {}
         }
         if opts.uid == 1 {
